@@ -42,6 +42,32 @@ print(json.dumps({"violates": got != (want_c, want_d, want_c), "observed": got, 
 '''
 
 
+REPLAY_STRUCT_MIXED = r'''
+import tempfile, importlib.util, os, sys, shutil
+src = """from guppylang import guppy
+from guppylang.std.builtins import array
+from typing import Generic
+T = guppy.type_var("T", copyable=False, droppable=False)
+@guppy.struct
+class Boxed(Generic[T]):
+    xs: array[T, 2]
+@guppy.declare
+def use(b: Boxed[int]) -> None: ...
+"""
+d = tempfile.mkdtemp(dir=os.environ.get("TMPDIR", "/var/tmp")); fn = os.path.join(d, "replay_c14.py"); open(fn, "w").write(src)
+spec = importlib.util.spec_from_file_location("replay_c14", fn); m = importlib.util.module_from_spec(spec); sys.modules["replay_c14"] = m
+try:
+    spec.loader.exec_module(m)
+    from guppylang_internals.engine import ENGINE
+    ty = ENGINE.get_checked(m.use.id).ty.inputs[0].ty
+    out = {"violates": bool(ty.copyable), "type": str(ty), "copyable": bool(ty.copyable), "required": "not copyable: it holds an array"}
+except Exception as ex:
+    out = {"violates": False, "error": repr(ex)[:300]}
+shutil.rmtree(d, ignore_errors=True)
+print(json.dumps(out))
+'''
+
+
 def run(chk):
     e = mk_engine(chk)
     for q in ("TypeBase.linear", "TypeBase.affine", "TypeBase.hugr_bound", "ParametrizedTypeBase.copyable", "ParametrizedTypeBase.droppable",
@@ -171,6 +197,32 @@ def run(chk):
             return z3.And(z3.BoolVal(inst_ok), cop == (z3.And(*cs) if cs else z3.BoolVal(True)), dro == (z3.And(*ds) if ds else z3.BoolVal(True)), lin == z3.Not(cop))
         chk.prove_paths(f"StructType[fields={nf}]:fields-are-instantiated-with-the-arguments;copyable<=>all-fields-copyable;likewise-droppable;bound",
                         e.explore(t), post, func=f"{TY}:StructType.intrinsically_copyable")
+    # ---- structs whose fields MIX a parameter with an intrinsically classified component
+    # (`xs: tuple[T, Q]`, plus a parameter-free field): every field counts, instantiated
+    ncs, nds = [z3.Bool(f"never_copyable{i}") for i in range(2)], [z3.Bool(f"never_droppable{i}") for i in range(2)]
+
+    def t_mixed(it):
+        m = e.module(TY)
+        ST, TT, OT = it.lookup_global(m, "StructType"), it.lookup_global(m, "TupleType"), it.lookup_global(m, "OpaqueType")
+        TA = it.lookup_global(e.module("guppylang_internals.tys.arg"), "TypeArg")
+        BV = it.lookup_global(m, "BoundTypeVar")
+        e.models["guppylang_internals.definition.struct:StructField"] = lambda it2, a, k: SObj(ClassVal("StructField"), {"name": a[0], "ty": a[1]})
+        opq = [it.call(OT, [[], SObj(ClassVal("OpaqueTypeDef", builtin=True), {"never_copyable": SBool(ncs[i]), "never_droppable": SBool(nds[i]), "bound": None})], {}) for i in range(2)]
+        f0 = it.call(TT, [[it.call(BV, ["P0", 0, True, True], {}), opq[0]]], {})
+        fdefs = [SObj(ClassVal("StructField"), {"name": "mixed", "ty": f0}), SObj(ClassVal("StructField"), {"name": "plain", "ty": opq[1]})]
+        defn = SObj(ClassVal("CheckedStructDef", builtin=True), {"fields": fdefs})
+        s = it.call(ST, [[it.call(TA, [leaf(it, 0)], {})], defn], {})
+        return get3(it, s)
+
+    def post_mixed(p):
+        if p.kind != "return":
+            return z3.BoolVal(False)
+        cop, dro, lin = p.value[0], p.value[1], p.value[2]
+        wc = z3.And(z3.Bool("c0"), z3.Not(ncs[0]), z3.Not(ncs[1]))
+        wd = z3.And(z3.Bool("d0"), z3.Not(nds[0]), z3.Not(nds[1]))
+        return z3.And(cop == wc, dro == wd, lin == z3.Not(wc))
+    chk.prove_paths("StructType[mixed: (tuple[T, Q0], Q1)]:copyable<=>argument/\\both-intrinsic-components-copyable;likewise-droppable;bound", e.explore(t_mixed), post_mixed,
+                    func=f"{TY}:StructType.intrinsically_copyable", replay=lambda m_: {"script": REPLAY_STRUCT_MIXED, "input": {}})
     e.models.pop("guppylang_internals.definition.struct:StructField", None)
 
     # ---- base types: numbers, None, functions are copyable and droppable
